@@ -306,9 +306,9 @@ def captureValsPlain (units : List Nat) : List Int → List (Option (List Nat))
   | _ => []
 
 /-- Generic `Symbol.split` (ECMA-262 22.2.6.14 / builtin_regexp.go:912-968) with a sticky splitter whose
-exec at position q is `matchAt f q`.  `lim = none` means 2^32-1.  Output: list of pieces
-(`none` = undefined capture). -/
-def splitLoop (f : Finder) (units : List Nat) (unicode : Bool) (lim : Nat) :
+exec at position q is `matchAt f q`.  `lim = none` ⇔ no limit given (the Go code uses maxInt−1, unreachable).
+Output: list of pieces (`none` = undefined capture). -/
+def splitLoop (f : Finder) (units : List Nat) (unicode : Bool) (lim : Option Nat) :
     Nat → Nat → Nat → List (Option (List Nat)) → List (Option (List Nat))
   | 0, _, _, acc => acc
   | fuel + 1, p, q, acc =>
@@ -321,18 +321,18 @@ def splitLoop (f : Finder) (units : List Nat) (unicode : Bool) (lim : Nat) :
         if e == p then splitLoop f units unicode lim fuel p (advance units q unicode) acc
         else
           let acc := acc ++ [some (sub units p q)]
-          if acc.length == lim then acc
+          if lim == some acc.length then acc
           else
             let caps := (resultArray units r).drop 1
-            let room := lim - acc.length
+            let room := match lim with | some l => l - acc.length | none => caps.length + 1
             if caps.length ≥ room then acc ++ caps.take room
             else splitLoop f units unicode lim fuel e e (acc ++ caps)
 
-def genericSplit (f : Finder) (units : List Nat) (unicode : Bool) (lim : Nat) : List (Option (List Nat)) :=
-  if lim == 0 then []
+def genericSplit (f : Finder) (units : List Nat) (unicode : Bool) (lim : Option Nat) : List (Option (List Nat)) :=
+  if lim == some 0 then []
   else if units.length == 0 then
     (match matchAt f 0 with | none => [some []] | some _ => [])
-  else splitLoop f units unicode lim (2 * units.length + 3) 0 0 []
+  else splitLoop f units unicode lim (2 * units.length + 4) 0 0 []
 
 /-! ## 4. fast paths as coded: post-processing of raw `findAllSubmatchIndex` results
 
@@ -359,7 +359,6 @@ def fastSplitLoop (units : List Nat) (lim : Option Nat) :
         let room := match lim with | some l => l - found | none => caps.length + 1
         if caps.length ≥ room then (acc ++ caps.take room, true)
         else fastSplitLoop units lim rest e (found + caps.length) (acc ++ caps)
-termination_by raw => raw.length
 
 /-- the tail of `stdSplitter` needs the last `lastIndex`; recomputed from the consumed matches. -/
 def fastSplitLast (units : List Nat) : List (List Int) → Nat → Nat
@@ -577,7 +576,6 @@ def fastSplitLoopFixed (units : List Nat) (lim : Option Nat) :
         let room := match lim with | some l => l - found | none => caps.length + 1
         if caps.length ≥ room then (acc ++ caps.take room, true, e)
         else fastSplitLoopFixed units lim rest e (found + caps.length) (acc ++ caps)
-termination_by raw => raw.length
 
 def fastSplitFixed (units : List Nat) (raw : List (List Int)) (lim : Option Nat) : List (Option (List Nat)) :=
   if lim == some 0 then []
